@@ -235,6 +235,9 @@ func execMinter(x *Exec, toks []string) string {
 		if res == "ok" {
 			return "ok infl=" + out
 		}
+		if res == "panic" {
+			x.hit("C20", "query-panics", "cfeminter/Inflation", "Inflation query panicked: "+lastNote(x))
+		}
 		return res
 	case "m.update":
 		f.updated = true
@@ -254,6 +257,9 @@ func execMinter(x *Exec, toks []string) string {
 				_, err := ms.UpdateParams(sdk.WrapSDKContext(ctx), msg)
 				return err
 			})
+		}
+		if res == "panic" {
+			x.hit("C20", "message-panics", "m.update/"+toks[1], "handler or ValidateBasic panicked")
 		}
 		// C13 monitor: stored params always validate and contain the current minter
 		sp := k.GetParams(x.ctx)
@@ -529,7 +535,24 @@ func genMinter(g *Gen, n int) {
 	for s := 0; s < n; s++ {
 		g.emit("reset minter %d", s)
 		start, periods := genMinterConfig(g, false)
-		if g.chance(0.9) {
+		var ended *genPeriod
+		if s%4 == 1 {
+			for i := range periods {
+				if periods[i].end != 0 && periods[i].kind != "none" {
+					ended = &periods[i]
+				}
+			}
+		}
+		if ended != nil {
+			// directed shape: a chain (re)started exactly at the end of a period whose state still
+			// points at it: nothing is emitted from that instant on, the reported inflation must be zero
+			g.emit("m.init %d 0 0 0 %d", ended.seq, ended.end)
+			g.emit("m.fund %s", genAmount(g)+"1")
+			g.emit("m.infl %d", ended.end)
+			g.emit("m.block %d", ended.end)
+			g.emit("m.infl %d", ended.end)
+			g.count("init/at-period-end")
+		} else if g.chance(0.9) {
 			g.emit("m.init %d 0 0 0 %d", periods[0].seq, start-int64(g.intn(3))*sec)
 			g.count("init/genesis-like")
 		} else {
@@ -560,6 +583,30 @@ func genMinterUpd(g *Gen, n int) {
 		start, periods := genMinterConfig(g, true)
 		g.emit("m.init %d 0 0 0 %d", periods[0].seq, start-sec)
 		now := start
+		if s%3 == 0 {
+			// directed shape: an otherwise valid update whose only flaw is one boundary value of the
+			// current exponential period (step duration 0, amount 0), sent by governance, followed by
+			// the inflation query and a block
+			flaw := g.pick("step0", "amount0", "stepneg")
+			g.emit("m.cfg umint %d", start)
+			a, st := "1000", int64(sec)
+			switch flaw {
+			case "step0":
+				st = 0
+			case "amount0":
+				a = "0"
+			default:
+				st = -1
+			}
+			g.emit("m.period %d - exp %s %d 500000000000000000", periods[0].seq, a, st)
+			g.emit("m.update %s gov", g.pick("full", "minters"))
+			g.emit("m.params")
+			g.emit("m.fund 1000000")
+			now += 10 * sec
+			g.emit("m.infl %d", now)
+			g.emit("m.block %d", now)
+			g.count("update/boundary-" + flaw)
+		}
 		for i := 0; i < 4+g.intn(10); i++ {
 			switch g.intn(3) {
 			case 0, 1:
